@@ -60,8 +60,115 @@ theorem invL_onReq (c : Cfg) (h12 : c.fix12 = true) (h13 : c.fix13 = true) (s : 
       · exact invL_updObj c s p _ h rfl rfl rfl rfl rfl (Nat.le_refl _)
       · exact invL_respond c _ p _ _ h
 
+/-- the event is not a change made on a worker thread -/
+def notWorker : Ev → Prop
+  | .appSetWorker _ _ => False
+  | _ => True
+
+/-- histories in which every application change happens on the loop thread -/
+def NoWorker (tr : List Ev) : Prop := ∀ e ∈ tr, notWorker e
+
+/-! the hand-off FIFO is touched by `appSetWorker` / `handOff` only -/
+
+theorem hf_closeP (c : Cfg) (s : St) (p : ObjId) : (closeP c s p).1.handoffs = s.handoffs := rfl
+theorem hf_respond (s : St) (p : ObjId) (code : Nat) (b : Body) : (respond s p code b).1.handoffs = s.handoffs := rfl
+theorem hf_sendEvents (s : St) (p : ObjId) : (sendEvents s p).1.handoffs = s.handoffs := by
+  simp only [sendEvents]; split
+  · rfl
+  · split <;> rfl
+theorem hf_publish (c : Cfg) (s : St) (x : Cid) (v : Val) (sd : Option Addr) : (publish c s x v sd).handoffs = s.handoffs := by
+  simp only [publish]; split
+  · rfl
+  · split <;> rfl
+theorem hf_writeVal (c : Cfg) (s : St) (x : Cid) (v : Val) (sd : Option Addr) : (writeVal c s x v sd).handoffs = s.handoffs := by
+  rw [writeVal_eq]
+  have key : (if s.value x ≠ some v then publish c (setVal s x v) x v sd else setVal s x v).handoffs = s.handoffs := by
+    split
+    · rw [hf_publish]; rfl
+    · rfl
+  simp only; split
+  · exact key
+  · exact key
+theorem hf_discardStale (c : Cfg) (s : St) (a : Addr) (x : Cid) : (discardStale c s a x).handoffs = s.handoffs := by
+  simp only [discardStale]; split
+  · split
+    · rfl
+    · split
+      · rfl
+      · split <;> rfl
+  · rfl
+theorem hf_dropEvent (c : Cfg) (s : St) (a : Addr) (x : Cid) : (dropEvent c s a x).handoffs = s.handoffs := by
+  simp only [dropEvent]; split
+  · split <;> rfl
+  · rfl
+theorem hf_putSub (c : Cfg) (s : St) (p : ObjId) (x : Cid) (ev : Option Bool) : (putSub c s p x ev).handoffs = s.handoffs := by
+  simp only [putSub]; split
+  · rfl
+  · rfl
+  · rw [hf_dropEvent]; rfl
+theorem hf_putChars (c : Cfg) (s : St) (p : ObjId) (x : Cid) (ev : Option Bool) (val : Option Val) :
+    (putChars c s p x ev val).handoffs = s.handoffs := by
+  simp only [putChars]; split
+  · exact hf_putSub c s p x ev
+  · simp only [putVal]
+    show (discardStale c _ _ x).handoffs = _
+    rw [hf_discardStale, hf_writeVal, hf_putSub]
+theorem hf_onReq (c : Cfg) (s : St) (p : ObjId) (r : Req) : (onReq c s p r).1.handoffs = s.handoffs := by
+  simp only [onReq]; split
+  · rfl
+  · split
+    · rfl
+    · rfl
+    · rename_i x ev val cl
+      simp only [onPut]
+      have hr : (if (s.obj p).verified then respond (putChars c s p x ev val) p 204 Body.none
+           else respond s p 401 Body.none).1.handoffs = s.handoffs := by
+        split
+        · rw [hf_respond, hf_putChars]
+        · rfl
+      split
+      · rw [hf_closeP]; exact hr
+      · exact hr
+    · split <;> rfl
+    · split <;> rfl
+    · split <;> rfl
+
+theorem handoffs_step (c : Cfg) (s : St) (e : Ev) (hw : notWorker e) (h0 : s.handoffs = []) :
+    (step c s e).1.handoffs = [] := by
+  cases e with
+  | tick dt => exact h0
+  | connect a => simp only [step]; split <;> exact h0
+  | verify p => simp only [step]; split <;> exact h0
+  | data p r =>
+    simp only [step]; split
+    · simp only [onData]; rw [hf_onReq]; exact h0
+    · exact h0
+  | appSet x v => simp only [step, appSet]; rw [hf_writeVal]; exact h0
+  | appSetWorker x v => exact absurd hw (by simp [notWorker])
+  | handOff => simp [step, handOff, h0]
+  | timerFire p =>
+    simp only [step]; split
+    · rw [hf_sendEvents]; exact h0
+    · exact h0
+  | soonFlush p =>
+    simp only [step]; split
+    · rw [hf_sendEvents]; exact h0
+    · exact h0
+  | respReady p ok =>
+    simp only [step]; split
+    · split
+      · exact h0
+      · split <;> exact h0
+    · exact h0
+  | lose p =>
+    simp only [step]; split
+    · exact h0
+    · exact h0
+  | idleSweep => exact h0
+  | stop => exact h0
+
 theorem invL_step (c : Cfg) (h12 : c.fix12 = true) (h13 : c.fix13 = true) (s : St) (e : Ev) (h : InvL c s)
-    (hG : Good s) (hr : reuseCond s e) : InvL c (step c s e).1 := by
+    (hG : Good s) (hr : reuseCond s e) (hw : notWorker e) (h0 : s.handoffs = []) : InvL c (step c s e).1 := by
   cases e with
   | tick dt =>
     intro q x hs
@@ -84,6 +191,8 @@ theorem invL_step (c : Cfg) (h12 : c.fix12 = true) (h13 : c.fix13 = true) (s : S
         (live_of_rel ht (invA_touch s p hG.a) hl)
     · exact h
   | appSet x v => exact invL_appSet c s x v h hG.a
+  | appSetWorker x v => exact absurd hw (by simp [notWorker])
+  | handOff => simpa [step, handOff, h0] using h
   | timerFire p =>
     simp only [step]; split
     · exact invL_sendEvents c s p h
@@ -109,18 +218,21 @@ theorem invL_step (c : Cfg) (h12 : c.fix12 = true) (h13 : c.fix13 = true) (s : S
   | stop => exact invL_stop c s h hG.a
 
 theorem invL_run_from (c : Cfg) (h12 : c.fix12 = true) (h13 : c.fix13 = true) (tr : List Ev) (s : St)
-    (h : InvL c s) (hG : Good s) (hr : ReuseOK c s tr) : InvL c (run c s tr).1 := by
+    (h : InvL c s) (hG : Good s) (hr : ReuseOK c s tr) (hw : NoWorker tr) (h0 : s.handoffs = []) :
+    InvL c (run c s tr).1 := by
   induction tr generalizing s with
   | nil => exact h
   | cons e es ih =>
     rw [reuseOK_cons] at hr
     simp only [run]
-    exact ih _ (invL_step c h12 h13 s e h hG hr.1)
+    have hwe := hw e (List.mem_cons_self ..)
+    exact ih _ (invL_step c h12 h13 s e h hG hr.1 hwe h0)
       ⟨invA_step c h13 s e hG.a, cleanInv_step c s e hG.a hG.clean, uniqInv_step c s e hG.uniq hr.1⟩ hr.2
+      (fun e' he' => hw e' (List.mem_cons_of_mem _ he')) (handoffs_step c s e hwe h0)
 
 theorem invL_run (c : Cfg) (h12 : c.fix12 = true) (h13 : c.fix13 = true) (tr : List Ev)
-    (hr : ReuseOK c (init c) tr) : InvL c (run c (init c) tr).1 :=
-  invL_run_from c h12 h13 tr _ (invL_init c) (good_init c) hr
+    (hr : ReuseOK c (init c) tr) (hw : NoWorker tr) : InvL c (run c (init c) tr).1 :=
+  invL_run_from c h12 h13 tr _ (invL_init c) (good_init c) hr hw rfl
 
 /-! #### draining one connection -/
 
